@@ -394,6 +394,72 @@ def judge_shots(chk, rec, n_shots, seed, variants=("plain", "init")):
     return J
 
 
+def judge_bigshots(chk, rec, n_shots, seed, word=None):
+    """Very large shot counts around the slice boundary of Backend._statevector_to_frequencies (shots are drawn in
+    slices of 10**7 and accumulated): on an exported state (exact amplitudes and exact <P> of every word from TLC)
+    (1) simulate(): frequencies sum to 1 (1e-9), every frequency is a multiple of 1/n_shots, lies in the support and in
+        the Bernstein band of the exact probability;
+    (2) get_expectation_value of a single-term operator through the frequency route: band around the exact value and
+        lattice test (the mean of n_shots outcomes +-1 is (2k - n)/n)."""
+    from tangelo.toolboxes.operators import QubitOperator
+    J = Judge(chk, rec, "BIGSHOTS")
+    c = J.case
+    M, n, p = rec["M"], rec["n"], c.p
+    sim = cirq_sim(n_shots)
+    circ, iv = c.variants["plain"]
+    es = [to_complex(e, M).real / p for e in rec["ew"]]
+    if word is None:
+        # prefer a word that needs a basis rotation and has a non-trivial expectation value
+        def score(j):
+            w = [(j // 4 ** (n - 1 - q)) % 4 for q in range(n)]
+            return (any(l in (1, 2) for l in w) and 1e-3 < abs(es[j]) < 1. - 1e-3, 1e-3 < abs(es[j]) < 1. - 1e-3, any(w), -j)
+        word = max(range(4 ** n), key=score)
+    ex = {"n_shots": n_shots, "seed": seed, "word": word}
+    # ---- (1) the sampled histogram itself
+    key = J.key("cirq", "bigshots.simulate", "plain", False, "nomeas")
+    J.n_eval += 1
+    chk.add_traces(1, "BIGSHOTS:bigshots.simulate")
+    try:
+        np.random.seed(seed)
+        freqs, _ = sim.simulate(circ, initial_statevector=iv)
+        freqs = {k: float(v) for k, v in freqs.items()}
+    except Exception as e:
+        J.report(key + ":exception", "simulate with n_shots=%d raised %s: %s" % (n_shots, type(e).__name__, str(e)[:200]), ex)
+        freqs = None
+    if freqs is not None:
+        probs = {format(i, "0%db" % n): abs(to_complex(a, M)) ** 2 / p for i, a in enumerate(rec["psi"])}
+        tot = sum(freqs.values())
+        if abs(tot - 1.) > 1e-9:
+            J.report(key + ":normalisation", "n_shots=%d: sampled frequencies sum to %r, not 1 (shots lost or counted twice)"
+                     % (n_shots, tot), ex)
+        for k in sorted(set(freqs) | set(probs)):
+            f, pr = freqs.get(k, 0.), probs.get(k, 0.)
+            if k not in probs or (pr < 1e-12 and f > 0.):
+                J.report(key + ":support", "n_shots=%d: sampled outcome %r outside the exact support" % (n_shots, k), ex)
+            elif abs(f * n_shots - round(f * n_shots)) > 1e-3:
+                J.report(key + ":lattice", "n_shots=%d: frequency %r of %s is not a multiple of 1/n_shots" % (n_shots, f, k), ex)
+            elif abs(f - pr) > bernstein(pr * (1. - pr), n_shots, 1.) + 1e-12:
+                J.report(key, "n_shots=%d: frequency %r of %s outside the 6-sigma band of the exact probability %r"
+                         % (n_shots, f, k, pr), ex)
+    # ---- (2) single-term operator through the frequency route
+    w = [(word // 4 ** (n - 1 - q)) % 4 for q in range(n)]
+    e = es[word]
+    op1 = QubitOperator(term_of_word(w), 1.)
+    key = J.key("cirq", "bigshots.get_expectation_value", "plain", False, "nomeas")
+    tb = bernstein(1. - e * e, n_shots, 2.)
+
+    def one():
+        np.random.seed(seed + 1)
+        return sim.get_expectation_value(op1, circ, initial_statevector=iv)
+    got = J.call(key, one, None, "n_shots=%d get_expectation_value(%s)" % (n_shots, term_of_word(w)), ex, band=(e - tb, e + tb))
+    if got is not None and any(w):
+        k = (got.real + 1.) * n_shots / 2.
+        if abs(k - round(k)) > 1e-3:
+            J.report(key + ":not-a-sample-mean", "n_shots=%d: estimate %r is not of the form (2k-n)/n: it is not the mean of "
+                     "n_shots sampled +-1 outcomes" % (n_shots, got), ex)
+    return J
+
+
 def judge_state(chk, rec, words=None, tag="plain"):
     """ST record: every Pauli word as a single-term operator through the three exact routes."""
     from tangelo.toolboxes.operators import QubitOperator
@@ -651,6 +717,8 @@ def run(chk):
             os.makedirs(cache, exist_ok=True)
             with open(cfile, "w") as f:
                 json.dump([sts, bhs], f)
+    # canonical order (TLC's print order depends on worker scheduling): seeded sampling must not depend on it
+    sts.sort(key=lambda r: (r["M"], r["n"], r["src"], r["nmeas"], len(r["gates"]), json.dumps(r["psi"])))
     timing["tlc_S_and_generation_s"] = round(time.time() - t0, 1)
 
     # ---------------- V ---------------------------------------------------------------------------------
@@ -681,6 +749,14 @@ def run(chk):
     for rec in rng.sample(meas, min(n_meas, len(meas))):
         judge_shots(chk, rec, 500, rng.randrange(2 ** 31), variants=(rng.choice(["plain", "init"]),))
     timing["replay_shots_s"] = round(time.time() - t1, 1)
+    t1 = time.time()
+    # very large shot counts around the 10**7 slice boundary of the sampler (a few seconds each)
+    big = [10 ** 7, 2 * 10 ** 7] if quick else [10 ** 7 - 1, 10 ** 7, 10 ** 7 + 1, 2 * 10 ** 7, 12 * 10 ** 6]
+    cands = [r for r in sts if r["M"] == 8 and r["n"] <= 2 and r["nmeas"] == 0 and r["src"] == "generic" and r["gates"]]
+    for nb in big:
+        judge_bigshots(chk, rng.choice(cands), nb, rng.randrange(2 ** 31))
+    chk.part("bigshots", n_shots=big)
+    timing["replay_bigshots_s"] = round(time.time() - t1, 1)
     t1 = time.time()
     # states x every word
     by = {}
@@ -726,6 +802,8 @@ def replay(chk, rec):
         J = judge_behaviour(c2, case["rec"], sympy_too=rec["key"].startswith("sympy"))
     elif kind == "ST":
         J = judge_state(c2, case["rec"], words=[case["word"]] if "word" in case else None, tag=case.get("variant", "plain"))
+    elif kind == "BIGSHOTS":
+        J = judge_bigshots(c2, case["rec"], case["n_shots"], case["seed"], word=case.get("word"))
     elif kind == "SHOTS":
         J = judge_shots(c2, case["rec"], case["n_shots"], case["seed"], variants=tuple(case.get("variants", ("plain", "init"))))
     else:
